@@ -62,7 +62,7 @@ Lemma sub_ontology_stages icf o root leaves o' : qgood o ->
   exists ids terms b2 b3 b4 b5 b6,
     sub_ids o root leaves = Ok ids /\
     Forall2 (fun id t => In t (ar_terms (o_arena o)) /\ t_id t = id) ids terms /\
-    BI b2 /\ (forall x, In x (ar_keys (o_arena b2)) <-> In x ids) /\ norecords b2 /\
+    BI b2 /\ src_ok b2 /\ (forall x, In x (ar_keys (o_arena b2)) <-> In x ids) /\ norecords b2 /\
     let pheno := g_from_list (map t_id (filter (fun t => g_is_empty (g_inter (g_bitor_id (t_allp t) (t_id t)) (o_mod o))) terms)) in
     sub_annotate KGene o ids pheno b2 = Ok b3 /\ sub_annotate KOmim o ids pheno b3 = Ok b4 /\ sub_annotate KOrpha o ids pheno b4 = Ok b5 /\
     b_calculate_ic icf b5 = Ok b6 /\ o' = b_build_minimal b6.
@@ -89,6 +89,12 @@ Proof.
   destruct (foldM (fun b t => b_add_term (copy_of t) b) terms onto_new) as [b0| | |] eqn:Eb0; cbn [bind] in H; try discriminate.
   destruct (copies terms onto_new b0 binv_default SP_default Eb0) as [B0 [P0 [K0 PR0]]].
   assert (forall x, In x (ar_keys (o_arena b0)) <-> In x ids) as K0' by (intros x; rewrite K0, Emap; cbn; tauto).
+  assert (SC (o_arena b0)) as C0.
+  { refine (foldM_inv _ (fun b => SC (o_arena b)) _ _ onto_new b0 SC_default Eb0).
+    intros s t s' _ Hs Cs. unfold b_add_term in Hs. apply bind_Ok' in Hs as [a' [Ha Hs]]. injection Hs as <-. cbn [o_arena set_arena].
+    unfold ar_insert in Ha. destruct (MAX_HPO_ID <=? _); [discriminate|]. destruct (ar_find _ (o_arena s)); injection Ha as <-; [exact Cs|].
+    intros x [Hin| ->]; [|apply Cs; right; reflexivity]. cbn [ar_terms] in Hin.
+    apply in_app_or in Hin as [Hin|[<-|[]]]; [apply Cs; left; exact Hin|constructor]. }
   assert (noannot (o_arena b0) /\ norecords b0) as [N0 R0].
   { refine (foldM_inv _ (fun b => noannot (o_arena b) /\ norecords b) _ _ onto_new b0 _ Eb0).
     - intros s t s' _ Hs [Ns Rs]. unfold b_add_term in Hs. apply bind_Ok' in Hs as [a' [Ha Hs]]. injection Hs as <-.
@@ -108,6 +114,10 @@ Proof.
     unfold b_add_parent_unchecked in H3'. apply bind_Ok' in H3' as [s4 [E1 E2]].
     eapply noannot_update_unchecked; [|intros x k0; apply annots_set_parents|exact E2].
     eapply noannot_update_unchecked; [exact N2'|intros x k0; apply annots_set_children|exact E1]. }
+  assert (SC a1) as C1.
+  { refine (foldM_inv _ SC _ _ (o_arena b0) a1 C0 Ea1). intros s t s' _ Hs Cs.
+    refine (foldM_inv _ SC _ _ s s' Cs Hs). intros s2 p s3 _ H3' C2'. unfold inner_step in H3'.
+    destruct (g_contains p ids); [|injection H3' as <-; exact C2']. apply (SC_unchecked p (t_id t) s2 s3 C2' H3'). }
   destruct (connect_all (default_fuel a1) a1) as [a2| | |] eqn:Ea2; cbn [bind] in H; try discriminate.
   assert (BI (set_arena a2 b0)) as Bi2.
   { assert (norecords (set_arena a1 b0)) as Rn by (intros k; destruct k; [exact (R0 KGene)|exact (R0 KOmim)|exact (R0 KOrpha)]).
@@ -123,6 +133,10 @@ Proof.
   destruct (b_calculate_ic icf b5) as [b6| | |] eqn:E6; cbn [bind] in H; try discriminate.
   injection H as <-.
   exists ids, terms, b2, b3, b4, b5, b6. split; [reflexivity|]. split; [exact Ft|]. split; [exact Bi2|].
+  split.
+  { constructor; [exact (bi_q _ Bi2)| |]; unfold b2; cbn [o_arena set_arena].
+    - intros c p. rewrite <- (same_parent_rel _ _ c p Sm), <- (same_child_rel _ _ p c Sm). apply (b_inverse _ B1).
+    - intros t Ht. apply (SC_same _ _ Sm C1 t Ht). }
   split; [intros x; unfold b2; cbn [o_arena set_arena]; rewrite (same_keys _ _ Sm), K1; apply K0'|].
   split; [intros k; destruct k; [exact (R0 KGene)|exact (R0 KOmim)|exact (R0 KOrpha)]|].
   cbv zeta. fold pheno. auto 10.
@@ -146,7 +160,7 @@ Theorem sub_ontology_annotations icf o root leaves o' : qgood o ->
       exists r, In r (o_records k o) /\ a_id r = g /\ kept pheno r /\ In x (a_hpos r) /\ In x ids.
 Proof.
   intros G Hl H.
-  destruct (sub_ontology_stages icf o root leaves o' G Hl H) as (ids & terms & b2 & b3 & b4 & b5 & b6 & Eids & Ft & Bi2 & K2 & R2 & Hst).
+  destruct (sub_ontology_stages icf o root leaves o' G Hl H) as (ids & terms & b2 & b3 & b4 & b5 & b6 & Eids & Ft & Bi2 & _ & K2 & R2 & Hst).
   cbv zeta in Hst. set (pheno := g_from_list _) in *. destruct Hst as (E3 & E4 & E5 & E6 & ->).
   exists ids, terms. split; [exact Eids|]. split; [exact Ft|]. cbv zeta. fold pheno.
   rewrite sub_annotate_unfold in E3, E4, E5.
